@@ -16,6 +16,16 @@ SPEC = {
         {"name": "blocked-write", "pkg": O3, "kind": "rapid", "run": "^TestVerifC13BlockedWrite$",
          "quick": {"checks": 200, "shards": 2, "timeout": 300},
          "thorough": {"checks": 2000, "shards": 8, "timeout": 1800}},
+        {"name": "interleaved", "pkg": O3, "kind": "rapid", "run": "^TestVerifC13Interleaved$",
+         # one P: per-P caches (sync.Pool and the like) are shared by all connections deterministically
+         "quick": {"checks": 100, "shards": 2, "timeout": 300, "gomaxprocs": 1},
+         "thorough": {"checks": 1000, "shards": 8, "timeout": 1800, "gomaxprocs": 1}},
+        {"name": "interleaved-mp", "pkg": O3, "kind": "rapid", "run": "^TestVerifC13Interleaved$",
+         "quick": {"checks": 60, "shards": 1, "timeout": 300},
+         "thorough": {"checks": 600, "shards": 4, "timeout": 1800}},
+        {"name": "parallel", "pkg": O3, "kind": "rapid", "run": "^TestVerifC13Parallel$",
+         "quick": {"checks": 12, "shards": 1, "timeout": 300, "race": True},
+         "thorough": {"checks": 150, "shards": 4, "timeout": 1800, "race": True}},
         {"name": "reject", "pkg": O3, "kind": "rapid", "run": "^TestVerifC13Reject$",
          "quick": {"checks": 250, "shards": 2, "timeout": 300},
          "thorough": {"checks": 2000, "shards": 8, "timeout": 1800}},
